@@ -1,4 +1,6 @@
 import TSSVerif.Model.Dkg
+import TSSVerif.Gen.Stmts
+import TSSVerif.Model.StmtsExpected
 /-!
 # C05 — a misbehaving DKG participant cannot split or poison the generated key
 
@@ -564,5 +566,12 @@ theorem commit_senders_distinct (env : Env) : ∀ (evs : List Ev) (p : P), (p.co
       · rw [t2]; exact h
       · exact h
       · exact h
+
+
+/-- **The source the model was transcribed from is the current source**: the statements of `OnMsg`, `KeyGen`, the three wait loops, `combineShares`, `commitPhase`, `revealPhase`, `shareDistribution`, `validateCommitments`, `assembleThresholdPublicKey`, `Init` of both built-in backends, regenerated from
+`/repo` on this run, are the committed ones (logging left out). A change of any of them — harmless or not — fails here
+first; the differential and monitored runs of this property are then the search for an input on which it fails. -/
+theorem source_as_modelled : TSSVerif.Gen.Stmts.dkg = TSSVerif.Model.StmtsExpected.dkg := by
+  decide +kernel
 
 end TSSVerif.Props.C05
